@@ -235,7 +235,7 @@ def execute(case):
         mtu = case['mtu_abs']
     if mtu is not None:
         mtu = max(1, mtu)
-    node.config.tx_route_table[0].mtu = mtu
+    node.set_mtu(0, mtu)
     if mode == 'forward':
         err = node.receive(wire)
     else:
